@@ -156,6 +156,19 @@ def make_case(rnd, prop):
             if t["container"] and "limits" not in t and rnd.random() < 0.5:
                 t["limits"] = {rnd.choice(["dailymax", "weeklymax"]): rnd.choice([2, 3, 4, 5])}   # the limit sits on the container, the teams below it
         gen.equalize_teams(m)
+    if prop == "C05" and m.get("groups") and rnd.random() < 0.25:
+        # a limited GROUP named in an allocation (as alternative, or directly): touching the group must not disturb its
+        # counters (seeded change C05-f reset them in the lazy initialiser that every touch of a resource runs)
+        # (a group without members is a leaf resource for the engine: only real groups qualify)
+        lim_groups = [g for g in m["groups"] if g.get("limits") and any(r.get("group") == g["id"] for r in m["resources"])]
+        leaves_ = [t for t in m["tasks"] if "effort_min" in t and len(t.get("alloc", [])) == 1 and not t.get("alt")]
+        if lim_groups and leaves_:
+            for t in rnd.sample(leaves_, min(len(leaves_), rnd.randint(1, 3))):
+                g = rnd.choice(lim_groups)
+                if rnd.random() < 0.7:
+                    t["alt"] = [g["id"]]
+                else:
+                    t["alloc"] = [g["id"]]          # books nothing (a group has no time of its own); the touches are the point
     if prop == "C10" and rnd.random() < 0.08:
         # a roadmap: EVERY leaf is a pinned milestone (the scheduling loop has nothing to do), containers carry their own,
         # wider dates - they still summarise their children (seeded change C10-e skipped the roll-up for an empty work list)
@@ -328,7 +341,21 @@ def run_text(prop, m, text, acc, cs=None, name="", mfree=False, record=True):
         acc.count("cases-with-several-scenarios")
         for sc in range(1, nsc):
             ev_sc = [e for e in events if e.get("sc", 0) == sc]
-            v2, _sig2, _nt2, _st2, _obs2 = analyse(prop, m, p, ev_sc or events, acc, sc)
+            m_sc = m
+            if m.get("scen_tree"):
+                # scenario-specific efforts / ends: this scenario is judged against ITS effective attributes
+                from .meta import effective
+                import copy as _copy
+                sid = m["scen_tree"][sc][0]
+                m_sc = _copy.deepcopy(m)
+                for t in m_sc["tasks"]:
+                    v = effective(m["scen_tree"], t.get("sc_effort", {}), sid)
+                    if v is not None:
+                        t["effort_min"] = v
+                    v = effective(m["scen_tree"], t.get("sc_end", {}), sid)
+                    if v is not None:
+                        t["end"] = v
+            v2, _sig2, _nt2, _st2, _obs2 = analyse(prop, m_sc, p, ev_sc or events, acc, sc)
             acc.count("further-scenarios-analysed")
             for v in v2:
                 v["detail"] = dict(v["detail"], scenario_index=sc)
@@ -379,6 +406,25 @@ def run_case(rnd, cs, job, acc):
         # (a fifth of the moved edges is ALSO kept as a bare 'depends': the gap written on the precedes entry still counts)
         text = gen.render(m, refrnd=random.Random(cs + 1), precrnd=random.Random(cs + 2))
         acc.count("spelled-with-precedes-and-mixed-references")
+    elif prop in ("C03", "C06", "C08") and rnd.random() < 0.07:
+        # scenarios WITH overrides (efforts; deadlines of backward tasks), written in front of or behind the plain lines:
+        # each scenario is judged against its own effective attributes (seeded change C08-f applied a plain 'end' written
+        # below a '<scenario>:end' to that scenario)
+        from .meta import scen_lines
+        from datetime import timedelta as _td
+        tree = [("plan", None), ("delayed", "plan"), ("worse", "delayed"), ("alt", "plan")]
+        m["scen_tree"] = tree
+        for t in m["tasks"]:
+            if t["container"]:
+                continue
+            if "effort_min" in t and not t.get("effort_inherited") and rnd.random() < 0.4:
+                t["sc_effort"] = {rnd.choice(["delayed", "worse", "alt"]): t["effort_min"] + rnd.choice([1, 2, 4]) * m["res"]}
+            if "end" in t and m["alap"] and rnd.random() < 0.6:
+                t["sc_end"] = {rnd.choice(["delayed", "alt"]): t["end"] - _td(days=rnd.randint(1, 3))}
+            if rnd.random() < 0.5:
+                t["sc_first"] = True
+        text = gen.render(m, scenarios=scen_lines(tree))
+        acc.count("cases-with-scenario-overrides")
     elif prop in ("C01", "C02", "C03", "C05", "C06", "C10") and rnd.random() < 0.1:
         text = gen.render(m, scenarios=['scenario plan "p" {', '  scenario alt "a" {', '    scenario deep "d"', "  }", '  scenario other "o"', "}"])
     else:
